@@ -103,6 +103,11 @@ type TextM struct{ S string }
 
 func (t TextM) MarshalText() ([]byte, error) { return []byte(t.S), nil }
 
+// TextMFail is a TextMarshaler whose MarshalText fails; the error text is free text (it may echo hostile input).
+type TextMFail struct{ S string }
+
+func (t TextMFail) MarshalText() ([]byte, error) { return nil, errors.New(t.S) }
+
 // StringerTextM is a Stringer that is a TextMarshaler too (with another text).
 type StringerTextM struct{ S string }
 
@@ -120,16 +125,16 @@ type PlainStruct struct {
 }
 
 type Options struct {
-	Str        StrOpt
-	NoFallback bool // no struct/map/ptr/func/chan
-	NoSlices   bool
-	NoGroups   bool
-	NoBytes    bool
-	NoNil      bool
-	NoErrV3    bool
+	Str                   StrOpt
+	NoFallback            bool // no struct/map/ptr/func/chan
+	NoSlices              bool
+	NoGroups              bool
+	NoBytes               bool
+	NoNil                 bool
+	NoErrV3               bool
 	NoSpaceInSliceStrings bool
-	MaxDepth   int
-	Only       []string // restrict to these kinds
+	MaxDepth              int
+	Only                  []string // restrict to these kinds
 }
 
 var ScalarKinds = []string{"str", "str", "str", "bytes", "bool", "i", "i8", "i16", "i32", "i64", "u", "u8", "u16", "u32", "u64",
